@@ -10,6 +10,7 @@ Local Open Scope float_scope.
 
 Definition FS : SOps :=
   mkSOps float 0 1 2 4 PrimFloat.add PrimFloat.sub PrimFloat.mul PrimFloat.div PrimFloat.opp PrimFloat.sqrt
+         (fun a b => if PrimFloat.ltb a b then b else a)
          (fun a => PrimFloat.ltb 0 a) (fun a => PrimFloat.eqb a 0).
 
 Definition fvec := list float.
